@@ -5,6 +5,8 @@ from vf import Case
 ID = "C19"
 DRIVER = "drv_buffers"
 HARNESS = "h_buffers"
+QUICK_LEVEL = "thorough"      # the larger case set costs only seconds
+THOROUGH_SEEDS = 8
 RULE = ("explicit-state exploration over (head slot, queue length, override flag) for every capacity in scope: a shortest "
         "path to every reachable state followed by every operation and a full drain, for octet_ring and for the macro "
         "instantiated at uint8_t/uint16_t/uint32_t; after every operation size/empty/full and both iterator sequences are "
